@@ -158,7 +158,7 @@ func TestVP_C04_Ciphertext(t *testing.T) {
 	serial := 0
 	rapid.Check(t, func(rt *rapid.T) {
 		serial++
-		kind := rapid.SampledFrom([]string{"tcp", "tcp", "forward", "udp"}).Draw(rt, "kind")
+		kind := rapid.SampledFrom([]string{"tcp", "tcp", "forward", "udp", "udp-retry-after-open-timeout"}).Draw(rt, "kind")
 		shape := rapid.SampledFrom([]string{"chain1", "chain2", "chain3", "diamond"}).Draw(rt, "shape")
 		m := vpNewMesh(fmt.Sprintf("%s/m%d", base, serial))
 		defer m.stop()
@@ -198,7 +198,7 @@ func TestVP_C04_Ciphertext(t *testing.T) {
 			time.Sleep(300 * time.Microsecond)
 		}
 		maxLen := 40000
-		if kind == "udp" {
+		if strings.HasPrefix(kind, "udp") {
 			maxLen = 1300
 		}
 		up, upMarker, upFill, upKind := vpC04Payload(rt, "up", maxLen)
@@ -242,6 +242,50 @@ func TestVP_C04_Ciphertext(t *testing.T) {
 					rt.Fatalf("harness: scanner does not find the marker in the clear copy")
 				}
 			}
+		case "udp-retry-after-open-timeout":
+			// Fault injection: everything travelling towards the ingress is held back, so the
+			// first UDP_OPEN is not acknowledged in time (the harness plays the first datagram
+			// with a short deadline, exactly the call RelayUDPDatagram makes with 30 s); then
+			// delivery resumes and the client's retry is relayed.
+			base, err := a.CreateUDPAssociation(context.Background(), &net.UDPAddr{IP: net.IPv4(127, 0, 0, 1), Port: 40000})
+			if err != nil {
+				rt.Fatalf("harness: CreateUDPAssociation: %v", err)
+			}
+			a.udpIngressMu.RLock()
+			ing := a.udpIngressByBase[base]
+			a.udpIngressMu.RUnlock()
+			for k, l := range m.links {
+				if l == nil {
+					continue
+				}
+				if strings.HasPrefix(k, "A>") {
+					l.Hold(false)
+				} else if strings.HasSuffix(k, ">A") {
+					l.Hold(true)
+				}
+			}
+			ctx, cancel := context.WithTimeout(context.Background(), time.Duration(rapid.IntRange(5, 60).Draw(rt, "openDeadlineMs"))*time.Millisecond)
+			_, oerr := a.getOrCreateDestAssociation(ctx, ing, net.IPv4(127, 0, 0, 1))
+			cancel()
+			for k, l := range m.links {
+				if l == nil {
+					continue
+				}
+				if strings.HasPrefix(k, "A>") {
+					l.Release(false)
+				} else if strings.HasSuffix(k, ">A") {
+					l.Release(true)
+				}
+			}
+			if rapid.Bool().Draw(rt, "letLateAckArrive") {
+				time.Sleep(3 * time.Millisecond)
+			}
+			canon += fmt.Sprintf(" (first open: %v)", oerr)
+			for _, p := range [][]byte{up, down} {
+				a.RelayUDPDatagram(base, &net.UDPAddr{IP: net.IPv4(127, 0, 0, 1), Port: uecho.Port}, uint16(uecho.Port), protocol.AddrTypeIPv4, net.IPv4(127, 0, 0, 1).To4(), p)
+			}
+			time.Sleep(3 * time.Millisecond)
+			a.CloseUDPAssociation(base)
 		case "udp":
 			cl, err := vpSocksUDPAssociate(a.SOCKS5Address().String())
 			if err != nil {
